@@ -8,7 +8,7 @@ mkdir -p .bin .work evidence replays
 mkdir -p lean/Agd/Gen
 ./.bin/agdextract -repo "${VERIF_REPO:-/repo}" -out lean/Agd/Gen -spec extract/facts
 (cd lean && lake build Agd agdmodel)
-cat /repo/go.sum /repo/internal/dnsserver/go.sum | sort -u > harness/go.sum
+R="${VERIF_REPO:-/repo}"; cat "$R"/go.sum "$R"/internal/dnsserver/go.sum | sort -u > harness/go.sum
 for d in harness/cmd/*/; do
   n=$(basename "$d")
   (cd harness && go build -tags verif -o ../.bin/"$n" ./cmd/"$n")
